@@ -187,6 +187,10 @@ class Unsigned(BitVector):
             rhs = -(rhs % 2**self.width)
 
         else:
+            if rhs.width < self.width:
+                # the two's complement must be formed in the width of the result
+                rhs = rhs.resize(self.width)
+
             rhs = -rhs
 
         return self.add(rhs, target_width)
